@@ -63,6 +63,9 @@ func NetConn(ctx context.Context, c *Conn, msgType MessageType) net.Conn {
 			// If the lock cannot be acquired, then there is an
 			// active write goroutine and so we should cancel the context.
 			nc.writeCancel()
+			// The write may complete before it notices the cancellation
+			// so the connection is closed here as documented.
+			nc.c.close()
 			return
 		}
 		defer nc.writeMu.unlock()
@@ -79,6 +82,9 @@ func NetConn(ctx context.Context, c *Conn, msgType MessageType) net.Conn {
 			// If the lock cannot be acquired, then there is an
 			// active read goroutine and so we should cancel the context.
 			nc.readCancel()
+			// The read may complete before it notices the cancellation
+			// so the connection is closed here as documented.
+			nc.c.close()
 			return
 		}
 		defer nc.readMu.unlock()
